@@ -655,6 +655,12 @@ func (e *Extractor) extractSuffixes(re *syntax.Regexp, depth int) *Seq {
 			lits := make([]Literal, suffixes.Len())
 			for j := 0; j < suffixes.Len(); j++ {
 				lit := suffixes.Get(j)
+				if !lit.Complete {
+					// An incomplete suffix has unknown text in front of it (e.g. the
+					// branch `a.*xt` of `\.(a.*xt|log)`): it cannot be extended.
+					lits[j] = lit
+					continue
+				}
 				// Create new byte slice: prefix + suffix
 				newBytes := make([]byte, len(prefix)+len(lit.Bytes))
 				copy(newBytes, prefix)
